@@ -301,7 +301,9 @@ func formatInto(sb *strings.Builder, format string, args []string) (int, error) 
 						b = arg[0]
 					}
 				}
-				sb.WriteByte(b)
+				// the byte is padded to the width like a string
+				fmts = append(dropFlags(fmts, "0"), 's')
+				fmt.Fprintf(sb, string(fmts), string([]byte{b}))
 				fmts = nil
 			case '+', '-', ' ':
 				// flags may be combined, but must come before the width
@@ -321,10 +323,15 @@ func formatInto(sb *strings.Builder, format string, args []string) (int, error) 
 					// Passing in nil for args ensures that % format
 					// strings aren't processed; only escape sequences
 					// will be handled.
-					_, err := formatInto(sb, arg, nil)
+					var esc strings.Builder
+					_, err := formatInto(&esc, arg, nil)
 					if err != nil {
 						return 0, err
 					}
+					// the expanded argument is padded to the width like a string
+					farg = esc.String()
+					fmts = dropFlags(fmts, "0")
+					c = 's'
 				} else if c != 's' {
 					n, _ := strconv.ParseInt(arg, 0, 0)
 					if c == 'i' || c == 'd' {
